@@ -275,6 +275,62 @@ func TestVerif_C01(t *testing.T) {
 	if t.Failed() {
 		return
 	}
+	if vfOnlySub("big") && !vfReplayMode() {
+		// 70 KB - 2.5 MB inputs of every text family, examined in full and under large limits
+		kinds := []string{"html-giant-comment", "html-giant-script", "json-array", "geojson-decider-last", "csv", "ndjson-long-line", "text-latin-tail", "filler"}
+		sizes := []int{70000, 1100000, 2500000}
+		i := 0
+		for _, k := range kinds {
+			for _, n := range sizes {
+				i++
+				if i%vfNShards() != vfShard() {
+					continue
+				}
+				x := vfBig(k, n)
+				for _, lim := range []uint32{0, 1 << 20, uint32(len(x))} {
+					c := c01Case{X: x, Limit: lim}
+					r := vfSub[c01Case]{Name: "gen", Check: c01Check}.safeCheck(c)
+					r.Labels = append(r.Labels, "big-input")
+					vfStats.record(r, func() any { return map[string]any{"sub": "big", "kind": k, "len": len(x), "limit": lim} })
+					if r.Err != nil {
+						vfEnumFail(t, "C01", "gen", c, r.Err)
+						return
+					}
+				}
+			}
+		}
+		vfStats.Subchecks["big"] = "8 families x sizes {70 KB, 1.1 MB, 2.5 MB} x limits {0, 1 MiB, len}"
+	}
+	if t.Failed() {
+		return
+	}
+	if vfOnlySub("extended") {
+		// crash freedom on trees enlarged by chains of extensions (deeper than any built-in path)
+		vfRun(t, vfSub[c02Ext]{Prop: "C01", Name: "extended", Checks: vfN(6000, 600000), Gen: c02ExtGen,
+			Check: func(c c02Ext) vfResult {
+				vfTreeSnapshot()
+				vfTreeRestore()
+				defer vfTreeRestore()
+				for _, e := range c.Exts {
+					if err := e.apply(); err != nil {
+						return vfResult{Skip: "extend-parent-missing"}
+					}
+				}
+				var r vfResult
+				m := vfDetectAt(c.Doc, c.Limit)
+				mr, err := DetectReader(bytes.NewReader(c.Doc))
+				if m == nil || mr == nil || err != nil {
+					r.Err = fmt.Errorf("after %d Extend calls: Detect=%v DetectReader=(%v,%v)", len(c.Exts), m, mr, err)
+				}
+				r.Nontrivial = len(vfChain(m)) >= 5
+				r.Labels = append(r.Labels, "extended-tree")
+				r.Hash = vfHash(c.Doc, vfHashU(uint64(c.Limit)), []byte(fmt.Sprint(c.Exts)))
+				return r
+			}})
+	}
+	if t.Failed() {
+		return
+	}
 	if vfOnlySub("deep") {
 		vfRun(t, vfSub[c01Deep]{Prop: "C01", Name: "deep", Check: c01DeepCheck})
 		if vfReplayMode() || t.Failed() || vfShard() >= 4 {
